@@ -577,6 +577,13 @@ func c08Coverage(c *Ctx, ct *Cont, name string) {
 				}
 			}
 			if !installed {
+				// not the plain shape: decide copy() on the spine model
+				if len(paths) == 1 {
+					if bad, undec := c.foldBuild(v, paths[0], nil, nil, ct.IsList, ct.IsList, wantCopy); bad == "" && undec == "" {
+						ob.Ok("folded on the spine model for 0..3 elements: the returned container holds parseVal(copy()) of every element under its own key / in order")
+						return
+					}
+				}
 				ob.Fail("an iteration of the copy loop does not install copy() of the visited element under its own key into the result")
 				return
 			}
